@@ -178,6 +178,9 @@ class Interp(object):
                     o = MapObj(name, 24, "global", zero=True)       # OpenMP source-location descriptor: never dereferenced by the model
                 elif re.match(r".*\* null", init):
                     o = Obj(name, [None], 8, "global", True)
+                elif re.match(r"(%[\w.]+) zeroinitializer", init):
+                    # a zero-initialised struct with static storage (e.g. a cached handle): byte-addressed, all zero
+                    o = MapObj(name, self.m.size_align(re.match(r"(%[\w.]+) zeroinitializer", init).group(1))[0], "global", zero=True)
                 else:
                     raise Unsupported("global initializer " + init[:60])
             self.globals_obj[name] = o
@@ -645,6 +648,10 @@ class Interp(object):
             return 0
         if name == "exit":
             raise Unsupported("exit() called")
+        if name in ("memcpy", "memmove", "memset"):
+            # the libc entry points (emitted when the length is not a compile-time constant): same semantics as the intrinsics, return dest
+            self.external("llvm." + name + ".libc", a[:3])
+            return a[0]
         if name.startswith("llvm.memset"):
             p, v, n = a[0], a[1], a[2]
             if v != 0:
